@@ -173,6 +173,8 @@ static void zygote_start() {
     pid_t g = fork();
     if (g == 0) {
       close(pfd[0]);
+      signal(SIGALRM, SIG_DFL);
+      alarm(25);
       FreshReq r = fresh_decode(buf);
       Bits b;
       try {
